@@ -962,7 +962,47 @@ def rule_m(ctx: Ctx) -> None:
     ctx.min_instances("merged_name_sites", n, 2)
 
 
-RULES = [rule_a, rule_b, rule_c, rule_d, rule_e, rule_f, rule_g, rule_h, rule_i, rule_j, rule_k, rule_l, rule_m]
+def _shared_position_loops(tree: ast.AST) -> list[tuple[ast.For, ast.Call]]:
+    """`for part in (...): part.update_positions(E)` where E does not depend on the loop variable: every part gets the span of one node."""
+    out = []
+    for lp in ast.walk(tree):
+        if not (isinstance(lp, ast.For) and isinstance(lp.target, ast.Name)):
+            continue
+        v = lp.target.id
+        for c in ast.walk(lp):
+            if isinstance(c, ast.Call) and isinstance(c.func, ast.Attribute) and c.func.attr == "update_positions" and isinstance(c.func.value, ast.Name) and c.func.value.id == v \
+                    and c.args and not any(isinstance(x, ast.Name) and x.id == v for a in c.args for x in ast.walk(a)):
+                out.append((lp, c))
+    return out
+
+
+def rule_n(ctx: Ctx) -> None:
+    ctx.rule("C13.n", "several identifiers do not share one recorded span: a loop that stamps each of several rebuilt identifiers with update_positions(<node>) chooses the node per "
+                      "identifier (the argument depends on the loop variable) — with one loop-invariant node every part claims the text of that node, e.g. the `region` of "
+                      "region.`INFORMATION_SCHEMA.X` pointing at the quoted name")
+    ctx.require(len(_shared_position_loops(ast.parse("for part in (a, b):\n    part.update_positions(table.this)\n"))) == 1, "positive control failed")
+    ctx.require(len(_shared_position_loops(ast.parse("for part in (a, b):\n    part.update_positions(written.get(part.name, table.this))\n"))) == 0, "negative control failed")
+    n = 0
+    for m in ctx.repo.modules.values():
+        if not (m.name == "sqlglot.parser" or m.name.startswith("sqlglot.parsers.")):
+            continue
+        loops = [lp for lp in m.of_type(ast.For) if any(isinstance(c, ast.Call) and isinstance(c.func, ast.Attribute) and c.func.attr == "update_positions" for c in ast.walk(lp))]
+        n += len(loops)
+        bad = _shared_position_loops(m.tree)
+        flagged = {id(lp) for lp, _ in bad}
+        for lp in loops:
+            if id(lp) not in flagged:
+                f = m.enclosing_func(lp)
+                ctx.ok(f"{f.key if f else m.name}|positions chosen per identifier in `for {norm(lp.target)} in {norm(lp.iter, 40)}`", None)
+        for lp, c in bad:
+            f = m.enclosing_func(c)
+            ctx.fail(m, c, f.key if f else m.name, c, f"`{norm(c, 70)}` stamps every `{norm(lp.target)}` of the loop with the positions of the same node: identifiers that were written on their "
+                                                      f"own in the source then claim the text of that node instead of their own")
+    ctx.count("position_stamping_loops", n)
+    ctx.min_instances("position_stamping_loops", n, 1)
+
+
+RULES = [rule_a, rule_b, rule_c, rule_d, rule_e, rule_f, rule_g, rule_h, rule_i, rule_j, rule_k, rule_l, rule_m, rule_n]
 EXPLANATION = (
     "Representation invariants of the scanner cursor checked symbolically on every block that writes _current (linear "
     "normal form of offsets with local resolution, so the str.find and alnum fast paths are covered), the token stamp, "
